@@ -348,7 +348,26 @@ func runL1Case(e *l1Env, bc *blobCase, a *alteration, p l1Params, caseNo uint64)
 		} else if a.TOCTouched || len(a.Affected) > 0 {
 			r.NonTrivial(desc)
 		}
-		return
+		// A refusal must be final for this reader: retry the same call (what a retried Mount
+		// does while the layer sits in the resolver cache), the second time after further
+		// prefetch activity. If a retry returns nil, clauses (i)-(iii) apply to everything
+		// afterwards exactly as after a first success.
+		for k := 0; k < 2 && verr != nil; k++ {
+			if k == 1 {
+				vf.Recover(func() { vr.Cache() })
+			}
+			r.Count("l1_verify_retries_after_refusal", 1)
+			rd, verr = vr.VerifyTOC(digest.Digest(a.Pin))
+		}
+		if verr != nil {
+			return
+		}
+		r.Count("l1_verify_retry_returned_nil:"+cls, 1)
+		replay["verify_history"] = "VerifyTOC(pinned) refused, then returned nil on a retry on the same reader"
+		ac := *a
+		ac.Class = "after-verify-retry"
+		ac.Desc = a.Desc + " [VerifyTOC refused first, nil on retry]"
+		a, cls = &ac, ac.Class
 	}
 	r.Count("l1_verify_ok:"+cls, 1)
 	checkVerifyNil(r, "L1", bc, a, a.Pin, replay)
